@@ -125,12 +125,13 @@ theorem skelOf_partFile (o : Output) (p : Part) (cpu : Nat) (h1 h2 h3 h4 h5 : Na
   simp [skelOf, List.map_map, Function.comp]
 
 /-- **a (level, domain) block of a hydro / grav / rt file**: the two-record domain header of `domain_header_advance`, then —
-    when the file holds octs there — for every child cell one record of `nc` doubles per variable: the layout the variable
-    loop (`readVars_spec`, `var_stepover_eq_block`, `var_loop_reads_columns`) walks -/
+    when the file holds octs there — for every child cell one record of `nc` elements per variable, of the type the
+    descriptor declares: the layout the variable loop (`readVars_spec`, `var_loop_reads_columns`) walks -/
 theorem skelOf_varBlock (o : Output) (k : VarKind) (cpu l d : Nat) :
     skelOf (varBlock o k cpu l d) = domHdrSkel ++
       (if (o.heldOf cpu l d).length = 0 then []
-       else List.replicate (o.twotondim * nvarOf o k) (Ty.d, (o.heldOf cpu l d).length)) := by
+       else (List.range o.twotondim).flatMap fun _ =>
+         (List.range (nvarOf o k)).map fun iv => (varTyOf o k iv, (o.heldOf cpu l d).length)) := by
   unfold varBlock domHdrSkel
   simp only [skelOf_append, skelOf_cons, skelOf_nil, recI_sk, List.length_cons, List.length_nil]
   congr 1
@@ -142,12 +143,26 @@ theorem skelOf_varBlock (o : Output) (k : VarKind) (cpu l d : Nat) :
     induction n with
     | zero => simp
     | succ n ih =>
-      rw [List.range_succ, List.flatMap_append, skelOf_append, ih]
-      simp only [List.flatMap_cons, List.flatMap_nil, List.append_nil]
-      rw [skelOf_map_const _ _ Ty.d (o.heldOf cpu l d).length (by intro a _; simp)]
-      simp only [List.length_range, ← List.replicate_add]
+      rw [List.range_succ, List.flatMap_append, skelOf_append, ih, List.flatMap_append]
       congr 1
-      rw [Nat.succ_mul]
+      simp [skelOf, List.map_map, Function.comp_def]
+
+/-- all-double files (grav, rt, and hydro with the usual descriptor): `2^ndim * nvar` records of `nc` doubles -/
+theorem skelOf_varBlock_doubles (o : Output) (k : VarKind) (cpu l d : Nat) (hd : ∀ iv, varTyOf o k iv = .d)
+    (h0 : (o.heldOf cpu l d).length ≠ 0) :
+    skelOf (varBlock o k cpu l d) = domHdrSkel ++
+      List.replicate (o.twotondim * nvarOf o k) (Ty.d, (o.heldOf cpu l d).length) := by
+  rw [skelOf_varBlock]
+  simp only [h0, if_false, hd]
+  congr 1
+  generalize o.twotondim = n
+  induction n with
+  | zero => simp
+  | succ n ih =>
+    rw [List.range_succ, List.flatMap_append, ih]
+    simp only [List.flatMap_cons, List.flatMap_nil, List.append_nil, List.map_const', List.length_range, ← List.replicate_add]
+    congr 1
+    rw [Nat.succ_mul]
 
 theorem skelOf_varFile_hydro (o : Output) (cpu : Nat) :
     skelOf (varFile o .hydro cpu) = hydroHdrSkel ++
